@@ -151,9 +151,22 @@ def p_finished(b):
     return pred
 
 
+def _copied_from(b, pl):
+    """A local that is a plain copy of a place (`let len = self.len; match len {..}`, a split match-scrutinee tuple): that place."""
+    for _ in range(4):
+        if pl.get("p"):
+            return pl
+        ds = [d for d in b.defs().get(pl["l"], ()) if d["kind"] != "param"]
+        if len(ds) == 1 and ds[0]["kind"] == "assign" and not ds[0]["lhs"]["p"] and ds[0]["rv"]["k"] == "use" and ds[0]["rv"]["op"].get("k") in ("copy", "move"):
+            pl = ds[0]["rv"]["op"]["place"]
+        else:
+            return pl
+    return pl
+
+
 def p_no_len(b):
     def pred(kind, x):
-        if kind == "discr" and [n for a, v, n in place_fields(x)][-1:] == ["len"]:
+        if kind == "discr" and [n for a, v, n in place_fields(_copied_from(b, x))][-1:] == ["len"]:
             return ("std::option::Option", {"None"})
         if kind == "call" and x.matches(r"std::option::Option::<T>::is_(none|some)"):
             sl = b.slice_args(x, [0], through_calls=False)
